@@ -369,15 +369,21 @@ def enum_caches(seed):
                             return real
 
                         def f(*a, **k):
+                            if counter.get("dead"):
+                                raise _Stop()       # a dead process performs no further file operation
                             counter["n"] += 1
                             if counter["n"] == stop:
+                                counter["dead"] = True
                                 raise _Stop()
                             return real(*a, **k)
                         return f
 
                 def open_proxy(*a, **k):
+                    if counter.get("dead"):
+                        raise _Stop()
                     counter["n"] += 1
                     if counter["n"] == stop:
+                        counter["dead"] = True
                         raise _Stop()
                     return real_open(*a, **k)
                 F.os = FT.os = OsProxy()
